@@ -267,8 +267,11 @@ def finish(prop, tier, seed, t0, records, errors, coverage_extra, assumptions, l
                            rerun=f'./check {prop} --replay {path}'), fh, indent=1, default=str)
         reproduced = bool(r.get('replay') and r['replay'].get('reproduced'))
         lines.append(f"VIOLATION property={prop} replay={path}" + ('' if reproduced else ' no-failing-input-found'))
-    for ln in sorted(set(lines), key=lines.index):
+    shown = sorted(set(lines), key=lambda l: (l.endswith('no-failing-input-found'), lines.index(l)))
+    for ln in shown[:8]:
         print(ln)
+    if len(shown) > 8:
+        print(f'... {len(shown) - 8} more failing obligations/cases of property {prop} are listed in the evidence file')
     obligations = [r for r in records if r.get('backend') != 'bounded']
     n_ob = len(obligations)
     n_dis = len([r for r in obligations if r['verdict'] == 'discharged'])
